@@ -171,8 +171,9 @@ def read_item(src, tolerance=0):
 
     while src.hasNext():
         if src.peek().category == TC.Escape:
+            # only the command name matters: do not parse its arguments here
             cmd_name, _ = make_read_peek(read_command)(
-                src, 1, skip=1, tolerance=tolerance)
+                src, 0, 0, skip=1, tolerance=tolerance)
             if cmd_name in ('end', 'item'):
                 return extras
         elif src.peek().category == TC.GroupEnd:
